@@ -249,6 +249,11 @@ func (p *Element) SetBytesUncompressed(buf []byte, trusted bool) error {
 	var y fp.Element
 	// point in curve & subgroup check
 	if !trusted {
+		// The x coordinate must be a canonical field encoding, otherwise
+		// x and x+p would be two accepted encodings of the same element.
+		if err := x.SetBytesCanonical(buf[:coordinateSize]); err != nil {
+			return fmt.Errorf("invalid uncompressed point: %s", err)
+		}
 		point := bandersnatch.GetPointFromX(&x, true)
 		if point == nil {
 			return fmt.Errorf("point not in the curve")
